@@ -73,11 +73,11 @@ func buildWorld(r *vrt.Run, name string, k int) *evmenv.World {
 type entryKind int
 
 const (
-	entCallEVM entryKind = iota // faithful rule set, code installed at target
-	entCallAPI                  // runtime.Call
-	entExecAPI                  // runtime.Execute
-	entCreateAPI                // runtime.Create
-	entCreateEVM                // faithful rule set, evm.Create
+	entCallEVM   entryKind = iota // faithful rule set, code installed at target
+	entCallAPI                    // runtime.Call
+	entExecAPI                    // runtime.Execute
+	entCreateAPI                  // runtime.Create
+	entCreateEVM                  // faithful rule set, evm.Create
 )
 
 var entryNames = []string{"call-evm", "call-api", "execute-api", "create-api", "create-evm"}
